@@ -541,6 +541,7 @@ impl Node {
                         entity_name: None,
                         index: false,
                         old_local_id: node._local_id,
+                        old_entity: Some(node._entity),
                         old_room_id: node.room_id,
                         old_mdate: node.mdate,
                         old_verifying_key: Some(node.verifying_key),
@@ -566,6 +567,7 @@ impl Node {
                     entity_name: None,
                     index: false,
                     old_local_id: None,
+                    old_entity: None,
                     old_room_id: None,
                     old_mdate: 0,
                     old_verifying_key: None,
@@ -775,6 +777,8 @@ pub struct NodeToInsert {
     pub old_mdate: i64,
     pub old_verifying_key: Option<Vec<u8>>,
     pub old_local_id: Option<i64>,
+    //entity of the stored row that will be replaced, filled by Node::filter_existing
+    pub old_entity: Option<String>,
     pub old_fts_str: Option<String>,
     pub node_fts_str: Option<String>,
 }
